@@ -17,6 +17,14 @@ CHECKS = {
             'and localisation. Held on the executions observed, exhaustive for the stated grid only.',
             'Trusted: CPython decimal/float, openpyxl as workbook writer. Values beyond 4 fractional digits / other '
             'integer parts are not explored.'),
+    'C10': ('runtime monitoring: recorded grid of comparison results checked offline against exact rational '
+            'comparison and the algebraic laws',
+            'All ordered pairs of value grids (numbers incl. fractions, signs, 2^53 boundaries; texts incl. numeric-looking '
+            'and nan/inf; dates and date-times) x 6 operators are executed through overrides, workbook cells and inline '
+            'literals; numbers are compared with fractions.Fraction, every kind against trichotomy / negation / '
+            'antisymmetry laws, blank clauses against an explicit table. Held on the executions observed.',
+            'Trusted: fractions/datetime of CPython. Mixed-kind comparisons and an ordering of texts are not asserted '
+            '(statement silent).'),
 }
 
 PENDING_REASON = 'check not built yet in this round (see DESIGN.md section 4); will be claimed once its monitor runs clean'
